@@ -186,6 +186,9 @@ def run(ctx, res):
     v3seeds = [s for s in seeds if fam_of(s) in ("3.0", "3.1")]
     v4seeds = [s for s in seeds if fam_of(s) == "4.0"]
 
+    def n_absent(fam, c):
+        return len([m for m in T.OPTIONAL[fam] if m not in T.parse(fam, c)[1]])
+
     def canon_first(s):
         """re-spell the seed with its mandatory fields first (so permutations() can range over them)"""
         fam = fam_of(s)
@@ -202,17 +205,17 @@ def run(ctx, res):
             tasks.append(("perm", fam, c, lo, lo + 2520))
     for s in v2seeds[:6]:
         fam, c = canon_first(s)
-        n_abs = len(T.OPTIONAL[fam]) - (len(c.split("/")) - len(T.MANDATORY[fam]))
+        n_abs = n_absent(fam, c)
         tasks.append(("nd", fam, c, 0, 1 << n_abs))
     for s in v3seeds[:4 if ctx.thorough else 2]:
         fam, c = canon_first(s)
-        n_abs = len(T.OPTIONAL[fam]) - (len(c.split("/")) - len(T.MANDATORY[fam]))
+        n_abs = n_absent(fam, c)
         for lo, hi in core.split_range(1 << n_abs, 16):
             tasks.append(("nd", fam, c, lo, hi))
     # v4: minimal-ish seed (few optional metrics present) so that many can be spelled X
     v4min = sorted(v4seeds, key=lambda s: len(s.split("/")))[0]
     fam, c = canon_first(v4min)
-    n_abs = len(T.OPTIONAL[fam]) - (len(c.split("/")) - len(T.MANDATORY[fam]))
+    n_abs = n_absent(fam, c)
     if ctx.thorough:
         for lo, hi in core.split_range(1 << n_abs, 256):
             tasks.append(("nd", fam, c, lo, hi))
